@@ -573,6 +573,32 @@ def _to_c_expr(
             return "(" + f" {op_token} ".join(emit(v) for v in n.values) + ")"
 
         if isinstance(n, ast.Compare):
+            def _evaluate_once(operand: ast.AST) -> bool:
+                # Python evaluates every operand of ``a < b < c`` once; repeating ``b`` in the
+                # C++ text would repeat a call (a second sensor read) and doubles the text for
+                # every nested chain.
+                return any(
+                    isinstance(sub, ast.Call)
+                    or (isinstance(sub, ast.Compare) and len(sub.ops) > 1)
+                    for sub in ast.walk(operand)
+                )
+
+            if len(n.ops) > 1 and any(_evaluate_once(c) for c in n.comparators[:-1]):
+                steps = [f"auto __redu_cmp0 = ({emit(n.left)});"]
+                last_index = len(n.ops) - 1
+                for index, (op_node, comparator) in enumerate(zip(n.ops, n.comparators)):
+                    op_token = _CMP.get(type(op_node))
+                    if op_token is None:
+                        raise ValueError("unsupported")
+                    if index == last_index:
+                        steps.append(f"return __redu_cmp{index} {op_token} ({emit(comparator)});")
+                    else:
+                        steps.append(f"auto __redu_cmp{index + 1} = ({emit(comparator)});")
+                        steps.append(
+                            f"if (!(__redu_cmp{index} {op_token} __redu_cmp{index + 1})) {{ return false; }}"
+                        )
+                return "([&]() -> bool { " + " ".join(steps) + " }())"
+
             parts = []
             left = emit(n.left)
             for op_node, comparator in zip(n.ops, n.comparators):
